@@ -493,7 +493,7 @@ func c12Value(c *core.Ctx, i int) *core.Result {
 	env.StandardSetup()
 	if i%4 == 1 {
 		// the interpreter has read (and rejected, or been left in the middle of) other texts before
-		for _, junk := range []string{"\"\\x4g\"\n", "\"abc\\u00", "'\\x4", "(quote 1.2.3)\n", "\"open", "0x\n"} {
+		for _, junk := range [][]string{{"(quote 1.2.3)\n", "\"open", "0x\n", "\"\\x4g\"\n"}, {"\"abc\\u00"}, {"'\\x4"}, {"\"\\U0001"}, {"(def s \"a\\x4"}}[(i/4)%5] {
 			sut.Eval(env, junk, 0)
 		}
 	}
